@@ -14,7 +14,7 @@ prop("C02", "fault_enumeration",
      ["ML-KEM, X25519, Ed25519 and the Cyclist duplex are not attacked by search; alterations are structural",
       "client HSTimeout 2 s / server HandshakeTimeout 5 s (virtual) turn a dropped continuation into an error"],
      [dict(name="sweep", pkg="transport", run="^TestVerifC02Sweep$", shards=dict(quick=16, thorough=16), timeout=dict(quick=900, thorough=7200)),
-      dict(name="random", pkg="transport", run="^TestVerifC02Random$", shards=dict(quick=8, thorough=16), thorough_scale=40)],
+      dict(name="random", pkg="transport", run="^TestVerifC02Random$", shards=dict(quick=8, thorough=16), thorough_scale=600)],
      exhaustive_core=True,
      text="Fault enumeration over the handshake wire: one altered datagram per run, enumerated over messages x offsets x masks / "
           "truncation lengths / transplants, with white-box comparison of the session keys of every completed pair.",
